@@ -131,4 +131,13 @@ PROPS = {
                "The scripted value encodes byte-for-byte like Node::List (variant indices verified at start-up); each case runs on a fresh thread because the library's attachment lists are per-thread.",
                "cases = generated scripts (0..7 steps, recursive nesting <=3) x target closed or not x 0..2 follow-up sends x receive-inside-deserialise; non-trivial = a failure after >=1 visited attachment, or nesting with attachments on both levels; distinct = distinct (build, canonical JSON)"),
     ),
+    "C13": dict(
+        jobs=lambda tier: [dict(build="os", params=dict({"sndbuf": "8192"} if sb else {}, cases="0" if tier == "quick" else "30000"), shards=8) for sb in (8192, 0)],
+        meta=M("fault_enumeration",
+               "exhaustive fault enumeration: all 2^10 ENOBUFS patterns over the first 10 transmission attempts x 5 message shapes x 2 attachment modes x 2 send-buffer sizes, injected at the interposed libc boundary; thorough adds generated 64-attempt masks and lengths (proptest)",
+               "Every ENOBUFS pattern over the first 10 transmission attempts of one send is injected (the interposed sendmsg/send of the sending thread fails without transmitting) for each listed message shape with and without attachments and for two reported send-buffer sizes: 20 480 sends, swept completely in both tiers. Ok => exact payload + probed attachments + intact follow-on message; Err => no complete-looking message, at most one receiver-side error, follow-on intact; no receive saw MSG_TRUNC; descriptor count unchanged.",
+               "ENOBUFS is simulated at the libc boundary, not provoked in the kernel; the receiver runs concurrently on another thread.",
+               "cases = (ENOBUFS mask, shape, attachments) enumerated completely, plus generated masks over 64 attempts with generated lengths in the thorough tier; non-trivial = mask != 0 and the send still succeeded after at least one injected failure, or the send failed after at least one packet had been transmitted; distinct = distinct (params, canonical JSON)",
+               exhaustive="all 2^10 masks x {<=2000 B, >2000 B one packet, 2, 3, 6 packets} x {no attachments, sender+region+receiver} x reported SO_SNDBUF in {8192, system default}"),
+    ),
 }
